@@ -611,3 +611,14 @@ benign(
 mutant("M91-twin-entry-popped-alone", ["C08"], "MAP-TWIN-SYM-1", (ASYNC, "                backup = backups.get(task, None)\n                if backup:\n                    if not backup.done() or not backup.exception():\n                        continue", "                backup = backups.pop(task, None)\n                if backup:\n                    if not backup.done() or not backup.exception():\n                        continue"))
 mutant("M92-accum-order-swapped-dict-branch", ["C01"], "ACCUM-ORDER-1", (OPS, "                k: nxp.concat([result[k], reduced_chunk[k]], axis=axis[0])", "                k: nxp.concat([reduced_chunk[k], result[k]], axis=axis[0])"))
 mutant("M93-region-offsets-stale-chunk", ["C11"], "STORE-GUARD-1", (OPS, "        block_offsets = [\n            (0 if sl.start is None else sl.start // cs)\n            for sl, cs in zip(region, chunks)\n        ]", "        block_offsets = [(sl.start or 0) // cs for sl in region]"))
+
+mutant("M94-clip-truth-tests-arrays", ["C16"], "LAZY-IMPLICIT-1", ("cubed/array_api/elementwise_functions.py", "    else:  # min is not None and max is not None\n        min = asarray(min, spec=x.spec)", "    else:  # min is not None and max is not None\n        if min > max:\n            raise ValueError(\"min must be less than or equal to max in clip\")\n        min = asarray(min, spec=x.spec)"))
+mutant("M95-context-id-inherited", ["C20", "C10"], "CLEANUP-1", (PLAN, "CONTEXT_ID = f\"cubed-{datetime.now().strftime('%Y%m%dT%H%M%S')}-{uuid.uuid4()}\"", "import os\nCONTEXT_ID = os.environ.setdefault(\"CUBED_CONTEXT_ID\", f\"cubed-{datetime.now().strftime('%Y%m%dT%H%M%S')}-{uuid.uuid4()}\")"))
+mutant("M96-stack-chunks-from-stale-alias", ["C01", "C17"], "ALIGN-1", (MANIP, "    inds = [list(range(a.ndim)) for a in arrays]\n    uc_args = chain.from_iterable(zip(arrays, inds))\n    _, arrays = unify_chunks(*uc_args, warn=False)\n\n    a = arrays[0]\n\n    axis = validate_axis(axis, a.ndim + 1)", "    a = arrays[0]\n\n    axis = validate_axis(axis, a.ndim + 1)\n    inds = [list(range(a.ndim)) for a in arrays]\n    uc_args = chain.from_iterable(zip(arrays, inds))\n    _, arrays = unify_chunks(*uc_args, warn=False)\n"))
+mutant("M97-refill-before-wait", ["C07", "C08"], "MAP-DRAIN-1", (ASYNC, "    while pending:\n        finished, pending = await asyncio.wait(", "    while pending:\n        if batch_size is not None and len(pending) < batch_size:\n            inputs = next(input_batches, None)  # type: ignore\n            if inputs is not None:\n                new_tasks = {\n                    task: i for i, task in create_futures_func(inputs, **kwargs)\n                }\n                tasks.update(new_tasks)\n                pending.update(new_tasks.keys())\n                t = time.monotonic()\n                start_times.update({f: t for f in new_tasks.keys()})\n        finished, pending = await asyncio.wait("), (ASYNC, "        if batch_size is not None and len(pending) < batch_size:\n            inputs = next(input_batches, None)  # type: ignore\n            if inputs is not None:\n                new_tasks = {\n                    task: i for i, task in create_futures_func(inputs, **kwargs)\n                }\n                tasks.update(new_tasks)\n                pending.update(new_tasks.keys())\n                t = time.monotonic()\n                start_times.update({f: t for f in new_tasks.keys()})\n\n\nasync def async_map_dag", "\n\nasync def async_map_dag"))
+mutant("M98-partial-reduce-deferred-reduce", ["C03"], "NEST-LAZY-1", (OPS, "            result = nxp.concat([result, reduced_chunk], axis=axis[0])\n            result = reduce_func(result, axis=axis, keepdims=True)\n\n    return result", "            result = nxp.concat([result, reduced_chunk], axis=axis[0])\n    result = reduce_func(result, axis=axis, keepdims=True)\n\n    return result"))
+mutant("M99-retries-zero-replaced", ["C08"], "RETRY-1", (LOCAL, "                concurrent_executor, run_func_threads, kwargs.pop(\"retries\", 2)\n", "                concurrent_executor, run_func_threads, kwargs.pop(\"retries\", None) or 2\n"))
+mutant("M100-shard-guard-rechunks-to-chunks", ["C05", "C11"], "TARGET-COMPAT-1", (OPS, "                source = source.rechunk(target.shards)", "                source = source.rechunk(target.chunks)"))
+mutant("M101-store-nofuse-on-wrong-object", ["C11"], "STORE-NOFUSE-1", (OPS, "                    op.fusable_with_successors = False\n", "                    op.pipeline.config.fusable_with_successors = False\n"), also=("OWN-MUT-1",))
+mutant("M102-pickled-kwargs-cached", ["C06"], "PICKLE-PAIR-1", (LOCAL, "        pickled_kwargs = {k: cloudpickle.dumps(v) for k, v in kwargs.items()}\n", "        key = kwargs.get(\"name\")\n        if key not in _CACHE:\n            _CACHE[key] = {k: cloudpickle.dumps(v) for k, v in kwargs.items()}\n        pickled_kwargs = _CACHE[key]\n"), (LOCAL, "def processes_create_futures_func(concurrent_executor, function: Callable[..., Any]):\n", "def processes_create_futures_func(concurrent_executor, function: Callable[..., Any]):\n    _CACHE: dict = {}\n\n"))
+mutant("M103-coord-maps-keyed-by-name", ["C15"], "PROXY-KEYS-1", (PBW, "        for cmap, axes, (arg, ind) in zip(\n            coord_maps, concat_axes, argpairs, strict=True\n        ):\n            if ind is None:\n                args.append(arg)\n            else:\n", "        plans = {a: (cm, ax) for cm, ax, (a, _i) in zip(coord_maps, concat_axes, argpairs, strict=True)}\n        for arg, ind in argpairs:\n            if ind is None:\n                args.append(arg)\n            else:\n                cmap, axes = plans[arg]\n"))
